@@ -70,7 +70,7 @@ def tree_key(repo):
                 h.update(hashlib.sha256(fh.read()).digest())
     h.update(os.path.abspath(repo).encode())
     # extraction logic version: bump when core.py changes what it stores
-    h.update(b'core-v13')
+    h.update(b'core-v14')
     return h.hexdigest()[:24]
 
 
@@ -92,6 +92,10 @@ CONFIGS = {
     'K4': dict(extra=['-march=x86-64-v3', '-maes'], drop=[], desc='x86-64 with SSE4.1/AVX2/BMI2 enabled at compile time (the documented -DARCH=native build on a current CPU); only the units that use the vector wrappers'),
     'K6': dict(extra=['--target=s390x-linux-gnu', '-U__SSE2__', '-U__SSE__', '-U__AES__', '-U__SIZEOF_INT128__', '-U__x86_64__', '-U__SSSE3__', '-U__AVX2__'] + CROSS_SYS,
                drop=['-maes', '-mssse3', '-mavx2'], desc='big-endian cross parse (s390x) of the portable wrappers: the byte-order branches of blake2/endian.h and intrin_portable.h; one unit that includes them'),
+    'K7a': dict(extra=['--target=aarch64_be-linux-gnu'] + CROSS_SYS, drop=['-maes', '-mssse3', '-mavx2'], desc='big-endian AArch64 cross parse of the byte-order helpers (blake2/endian.h through blake2b.c)'),
+    'K7b': dict(extra=['--target=powerpc64-linux-gnu'] + CROSS_SYS, drop=['-maes', '-mssse3', '-mavx2'], desc='big-endian PowerPC64 cross parse of the byte-order helpers'),
+    'K7c': dict(extra=['--target=mips64-linux-gnu'] + CROSS_SYS, drop=['-maes', '-mssse3', '-mavx2'], desc='big-endian MIPS64 cross parse of the byte-order helpers'),
+    'K7d': dict(extra=['--target=sparc64-linux-gnu'] + CROSS_SYS, drop=['-maes', '-mssse3', '-mavx2'], desc='SPARC64 cross parse of the byte-order helpers'),
     'K5': dict(extra=['--target=x86_64-w64-mingw32', '-ffreestanding', '-isystem', os.path.join(VERIF, 'support', 'xinc_llp'), '-isystem', CLANG_RES_INC], drop=['-maes', '-mssse3', '-mavx2'],
                desc='LLP64 data model (64-bit Windows / MinGW: long is 32 bits); only the C units whose arithmetic could depend on the width of long'),
 }
@@ -101,6 +105,7 @@ ONLY_UNITS = {
     'K4': ['src/soft_aes.cpp', 'src/aes_hash.cpp', 'src/instructions_portable.cpp'],
     'K5': ['src/reciprocal.c'],
     'K6': ['src/soft_aes.cpp'],
+    'K7a': ['src/blake2/blake2b.c'], 'K7b': ['src/blake2/blake2b.c'], 'K7c': ['src/blake2/blake2b.c'], 'K7d': ['src/blake2/blake2b.c'],
 }
 
 # extra units not in the host build that exist only for a target
